@@ -527,7 +527,8 @@ theorem Sim.dagView {b b' : Builder} (h : Sim b b') : EinoV.Build.dagView b' = E
     rw [← keysOf_fst, ← keysOf_fst]; exact congrArg _ h11
   simp only [EinoV.Build.dagView, hk, h5, h7]
 
-theorem compile_sim (f : Facts) (hm : f.compileMutates = false) (ord ord' : Ord) (hk : ord.kahn = ord'.kahn)
+theorem compile_sim (f : Facts) (hm : f.compileMutates = false) (ord ord' : Ord)
+    (hkahn : ∀ x, KeysOK x → validateDAG x ord' = validateDAG x ord)
     (b b' : Builder) (hs : Sim b b') (hko : KeysOK b) (o : COpts) :
     (compile f ord b o).2.1.cls = (compile f ord' b' o).2.1.cls ∧
     (Sim (compile f ord b o).1 (compile f ord' b' o).1 ∨ BothErr (compile f ord b o).1 (compile f ord' b' o).1) := by
@@ -540,14 +541,7 @@ theorem compile_sim (f : Facts) (hm : f.compileMutates = false) (ord ord' : Ord)
   have hdag : isDag b' o = isDag b o := by unfold isDag; rw [h1]
   have hval : validateDAG b' ord' = validateDAG b ord := by
     rw [validateDAG_congr hs.dagView ord']
-    -- the two orders agree on Kahn's loop
-    have : ∀ fuel m, kahnLoop b ord' fuel m = kahnLoop b ord fuel m := by
-      intro fuel
-      induction fuel with
-      | zero => intro m; rfl
-      | succ n ih => intro m; simp only [kahnLoop, hk, ih]
-    unfold validateDAG
-    rw [this]
+    exact hkahn b hko
   have hpost : compilePost b' ord' o = compilePost b ord o := by
     unfold compilePost
     rw [hdag, hval, hs.hasUntyped hko]
@@ -754,260 +748,5 @@ theorem branchEnds_sim (im : Impl) (ord ord' : Ord) (hv : ord.Valid) (hv' : ord'
               rw [hmo.tout s A ho]; simp
         exact ih c1 c1' _ _ hs1 hic hic' hex1
 
-
-/-- the two iteration orders visit branch end nodes and Kahn's counters in the same order
-    (they may differ arbitrarily in how they visit the type-inference work list) -/
-structure OrdAgree (ord ord' : Ord) : Prop where
-  ends : ∃ π : List Key → List Key, (∀ b l, ord.ends b l = π l) ∧ (∀ b l, ord'.ends b l = π l)
-  kahn : ord.kahn = ord'.kahn
-
-theorem addBranch_sim (f : Facts) (hf : f.Guarded) (hg : f.branchGuarded = true) (hpr : f.branchPropagates = true)
-    (im : Impl) (ord ord' : Ord) (hv : ord.Valid) (hv' : ord'.Valid) (ha : OrdAgree ord ord')
-    (b b' : Builder) (hs : Sim b b') (hi : Inv im b) (hi' : Inv im b') (s : Key) (t : Ty) (ends : List Key) :
-    (addBranch f im ord b s t ends false).2.cls = (addBranch f im ord' b' s t ends false).2.cls ∧
-    (Sim (addBranch f im ord b s t ends false).1 (addBranch f im ord' b' s t ends false).1 ∨
-     BothErr (addBranch f im ord b s t ends false).1 (addBranch f im ord' b' s t ends false).1) := by
-  unfold addBranch
-  apply guarded_sim (R := Sim) f.branchG (by rw [hf.branch]; rfl) b b' hs _ _ _ hs
-  rw [addBranchBody_eq f hg hpr, addBranchBody_eq f hg hpr, branchStruct_sim hs]
-  rcases hst : branchStruct b s ends with _ | k
-  · simp only
-    have hex : b.hasNode s = true ∨ s = START := by
-      unfold branchStruct at hst
-      by_cases h1 : s = END
-      · simp [h1] at hst
-      · by_cases h2 : (!b.hasNode s && s != START) = true
-        · simp [h1, h2] at hst
-        · by_cases hh : b.hasNode s = true
-          · exact Or.inl hh
-          · right; simpa [hh] using h2
-    have hex' : b'.hasNode s = true ∨ s = START := by rw [hs.hasNode]; exact hex
-    have hst1 := hs.branchTyped s t
-    rw [hst1.tout s]
-    rcases hr : checkAssignable im ((branchTyped b s t).nodeOut s) (some t) with _ | _ | _
-    · exact Or.inl ⟨_, _, rfl, rfl⟩
-    all_goals
-      simp only
-      obtain ⟨hw1, hq1, hp1, _, _, _⟩ := branchTyped_pre im b s t hi
-      obtain ⟨hw1', _, hp1', _, _, _⟩ := branchTyped_pre im b' s t hi'
-      -- the propagating run of the work list
-      rename_i flag0
-      generalize hflag : (_ == Asg.may) = flag
-      have hs2 : Sim ({ branchTyped b s t with preBranch := (branchTyped b s t).preBranch ++ [(s, flag)] } : Builder)
-          ({ branchTyped b' s t with preBranch := (branchTyped b' s t).preBranch ++ [(s, flag)] } : Builder) :=
-        ⟨hst1.fr, hst1.err, hst1.tin, hst1.tout, hst1.pend⟩
-      rcases update_sim im ord ord' hv hv' t _ _ hs2 hw1 hw1' hq1 hp1 hp1' with ⟨e1, e2⟩ | ⟨b3, b3', e1, e2, hs3⟩
-      · rw [e1, e2]; exact Or.inl ⟨_, _, rfl, rfl⟩
-      · rw [e1, e2]
-        simp only
-        obtain ⟨hc3, hx3⟩ := branch_mid_inv im ord hv b b3 s t flag hi hex e1
-        obtain ⟨hc3', _⟩ := branch_mid_inv im ord' hv' b' b3' s t flag hi' hex' e2
-        obtain ⟨π, hπ, hπ'⟩ := ha.ends
-        rw [hπ b3 ends, hπ' b3' ends]
-        rcases branchEnds_sim im ord ord' hv hv' s (π ends) b3 b3' [] [] hs3 hc3 hc3' hx3 with
-          ⟨k, k', f1, f2⟩ | ⟨b4, b4', f1, f2, hs4⟩
-        · rw [f1, f2]; exact Or.inl ⟨_, _, rfl, rfl⟩
-        · rw [f1, f2]
-          refine Or.inr ⟨_, _, rfl, rfl, ?_⟩
-          refine ⟨?_, hs4.err, hs4.tin, hs4.tout, hs4.pend⟩
-          have hfr := hs4.fr
-          simp only [Builder.simFrame, Prod.mk.injEq] at hfr ⊢
-          obtain ⟨h1, h2, h3, h4, h5, h6, h7, h8, h9, h10, h11, h12, h13⟩ := hfr
-          simp only [h1, h2, h3, h4, h5, h6, h7, h8, h9, h10, h11, h12, h13, and_self]
-  · exact Or.inl ⟨k, k, rfl, rfl⟩
-
-
-/-! ### key preservation per call, and the run-level theorem -/
-
-theorem guarded_keysOK (g : Guards) (b : Builder) (body : Except ErrKind Builder) (hk : KeysOK b)
-    (hbody : ∀ c, body = .ok c → KeysOK c) : KeysOK (guarded g b body).1 := by
-  apply guarded_preserves (P := KeysOK) g b body hk (fun _ => ⟨hk.nodup, hk.nores⟩) hbody
-
-theorem addNode_keysOK (f : Facts) (b : Builder) (n : NodeSpec) (hk : KeysOK b) : KeysOK (addNode f b n).1 := by
-  unfold addNode
-  apply guarded_keysOK _ _ _ hk
-  intro c hc
-  rcases hck : addNodeCheck b n with _ | k
-  · simp only [hck, Except.ok.injEq] at hc
-    subst hc
-    have hkey : n.key ≠ START ∧ n.key ≠ END ∧ b.hasNode n.key = false := by
-      unfold addNodeCheck at hck
-      by_cases h1 : (n.key = END || n.key = START) = true
-      · simp [h1] at hck
-      · simp only [h1] at hck
-        by_cases h2 : b.hasNode n.key = true
-        · simp [h2] at hck
-        · simp only [Bool.or_eq_true, decide_eq_true_eq, not_or] at h1
-          exact ⟨h1.2, h1.1, by simpa using h2⟩
-    have hnk : (n.node).key = n.key := by unfold NodeSpec.node; split <;> rfl
-    refine ⟨?_, ?_⟩
-    · show ((b.nodes ++ [n.node]).map (·.key)).Nodup
-      rw [List.map_append, List.nodup_append]
-      refine ⟨hk.nodup, by simp, ?_⟩
-      intro a ha b0 hb0
-      simp only [List.map_cons, List.map_nil, List.mem_singleton] at hb0
-      rw [hb0, hnk]
-      intro e
-      obtain ⟨m, hm, hmk⟩ := List.mem_map.mp ha
-      have : findNode b.nodes m.key = some m := findNode_of_mem_nodup hk.nodup hm
-      have hh : b.hasNode n.key = true := by
-        unfold Builder.hasNode; rw [← e, ← hmk, this]; rfl
-      rw [hkey.2.2] at hh; simp at hh
-    · intro m hm
-      rcases List.mem_append.mp hm with hm | hm
-      · exact hk.nores m hm
-      · simp only [List.mem_singleton] at hm
-        subst hm; rw [hnk]; exact ⟨hkey.1, hkey.2.1⟩
-  · simp [hck] at hc
-
-theorem addEdge_keysOK (f : Facts) (im : Impl) (ord : Ord) (b : Builder) (s e : Key) (hk : KeysOK b) :
-    KeysOK (addEdge f im ord b s e false false none).1 := by
-  unfold addEdge
-  split
-  · exact hk
-  · split
-    · exact hk
-    · simp only [Bool.and_self, Bool.false_eq_true, ↓reduceIte]
-      apply guarded_keysOK _ _ _ hk
-      intro c hc
-      rw [addEdgeBody_eq] at hc
-      split at hc
-      · simp at hc
-      · split at hc
-        · simp at hc
-        · rename_i b2 hupd
-          simp only [Except.ok.injEq] at hc
-          subst hc
-          have := update_keys im ord _ _ hupd
-          exact hk.of_keys (b' := { b2 with dataEdges := b2.dataEdges ++ [(s, e)] }) this
-
-theorem addBranch_keysOK (f : Facts) (hg : f.branchGuarded = true) (hpr : f.branchPropagates = true)
-    (im : Impl) (ord : Ord) (b : Builder) (s : Key) (t : Ty) (ends : List Key) (hk : KeysOK b) :
-    KeysOK (addBranch f im ord b s t ends false).1 := by
-  unfold addBranch
-  apply guarded_keysOK _ _ _ hk
-  intro c hc
-  rw [addBranchBody_eq f hg hpr] at hc
-  have hk1 : keysOf (branchTyped b s t) = keysOf b := by
-    unfold branchTyped
-    split
-    · simp [keysOf, Builder.setTy, setTyIn_keys]
-    · rfl
-  split at hc
-  · simp at hc
-  · split at hc
-    · simp at hc
-    · split at hc
-      · simp at hc
-      · rename_i b3 hupd
-        split at hc
-        · simp at hc
-        · rename_i b4 hends
-          simp only [Except.ok.injEq] at hc
-          subst hc
-          have h3 := update_keys im ord _ _ hupd
-          have h4 := branchEnds_keys im ord s _ _ _ hends
-          refine hk.of_keys (b' := { b4 with branches := b4.branches ++ [_] }) ?_
-          show keysOf b4 = keysOf b
-          rw [h4, h3]; exact hk1
-
-theorem compile_keysOK (f : Facts) (ord : Ord) (b : Builder) (o : COpts) (hk : KeysOK b) :
-    KeysOK (compile f ord b o).1 := by
-  have hm : KeysOK (mutatePre f b) := by
-    unfold mutatePre; split
-    · exact ⟨hk.nodup, hk.nores⟩
-    · exact hk
-  unfold compile
-  split
-  · exact hk
-  · split
-    · exact hk
-    · split
-      · exact hm
-      · exact ⟨hm.nodup, hm.nores⟩
-
-/-- **Two runs of the same Graph-API call sequence under two iteration orders give the same
-    outcome class for every call** (ok / error / ErrGraphCompiled / panic), provided the two
-    orders agree on branch end nodes and on Kahn's counters (see `OrdAgree`). -/
-theorem run_order_free (f : Facts) (hf : f.Guarded) (hg : f.branchGuarded = true) (hpr : f.branchPropagates = true)
-    (hm : f.compileMutates = false)
-    (im : Impl) (ord ord' : Ord) (hv : ord.Valid) (hv' : ord'.Valid) (ha : OrdAgree ord ord') :
-    ∀ (ops : List Op) (b b' : Builder), (∀ op ∈ ops, op.isGraphApi = true) →
-      ((Sim b b' ∧ Inv im b ∧ Inv im b' ∧ KeysOK b) ∨ BothErr b b') →
-      (run f im ord b ops).2.1.map Outcome.cls = (run f im ord' b' ops).2.1.map Outcome.cls := by
-  intro ops
-  induction ops with
-  | nil => intro b b' _ _; rfl
-  | cons op ops ih =>
-    intro b b' hops hrel
-    have hop : op.isGraphApi = true := hops op List.mem_cons_self
-    have hrest : ∀ x ∈ ops, x.isGraphApi = true := fun x hx => hops x (List.mem_cons_of_mem _ hx)
-    simp only [run, List.map_cons]
-    rcases hrel with ⟨hs, hi, hi', hko⟩ | ⟨he, he'⟩
-    · have key : (step f im ord b op).2.1.cls = (step f im ord' b' op).2.1.cls ∧
-          ((Sim (step f im ord b op).1 (step f im ord' b' op).1 ∧ Inv im (step f im ord b op).1 ∧
-              Inv im (step f im ord' b' op).1 ∧ KeysOK (step f im ord b op).1) ∨
-            BothErr (step f im ord b op).1 (step f im ord' b' op).1) := by
-        cases op with
-        | node n =>
-          obtain ⟨h1, h2⟩ := addNode_sim f hf b b' hs n
-          refine ⟨h1, ?_⟩
-          rcases h2 with h2 | h2
-          · exact Or.inl ⟨h2, addNode_inv f im b n hi, addNode_inv f im b' n hi', addNode_keysOK f b n hko⟩
-          · exact Or.inr h2
-        | edge s e nc nd m =>
-          simp only [Op.isGraphApi, Bool.and_eq_true, Bool.not_eq_true', Option.isNone_iff_eq_none] at hop
-          obtain ⟨⟨rfl, rfl⟩, rfl⟩ := hop
-          obtain ⟨h1, h2⟩ := addEdge_sim f hf im ord ord' hv hv' b b' hs hi hi' s e
-          refine ⟨h1, ?_⟩
-          rcases h2 with h2 | h2
-          · exact Or.inl ⟨h2, addEdge_inv f im ord hv b s e hi, addEdge_inv f im ord' hv' b' s e hi',
-              addEdge_keysOK f im ord b s e hko⟩
-          · exact Or.inr h2
-        | branch s t ends sk =>
-          simp only [Op.isGraphApi, Bool.not_eq_true'] at hop
-          subst hop
-          obtain ⟨h1, h2⟩ := addBranch_sim f hf hg hpr im ord ord' hv hv' ha b b' hs hi hi' s t ends
-          refine ⟨h1, ?_⟩
-          rcases h2 with h2 | h2
-          · exact Or.inl ⟨h2, addBranch_inv f hg hpr im ord hv b s t ends hi,
-              addBranch_inv f hg hpr im ord' hv' b' s t ends hi', addBranch_keysOK f hg hpr im ord b s t ends hko⟩
-          · exact Or.inr h2
-        | compile o =>
-          obtain ⟨h1, h2⟩ := compile_sim f hm ord ord' ha.kahn b b' hs hko o
-          refine ⟨h1, ?_⟩
-          rcases h2 with h2 | h2
-          · exact Or.inl ⟨h2, compile_inv f im ord b o hi, compile_inv f im ord' b' o hi', compile_keysOK f ord b o hko⟩
-          · exact Or.inr h2
-      rw [key.1]
-      congr 1
-      exact ih _ _ hrest key.2
-    · -- both runs carry a stored error: every call returns it
-      obtain ⟨k, hk⟩ := Option.isSome_iff_exists.mp he
-      obtain ⟨k', hk'⟩ := Option.isSome_iff_exists.mp he'
-      rw [step_stored f hf im ord b k hk op, step_stored f hf im ord' b' k' hk' op]
-      simp only [Outcome.cls]
-      congr 1
-      exact ih b b' hrest (Or.inr ⟨he, he'⟩)
-
-
-theorem Sim.refl (b : Builder) (h : b.buildError = none) : Sim b b :=
-  ⟨rfl, ⟨h, h⟩, fun _ => rfl, fun _ => rfl, fun _ _ => Iff.rfl⟩
-
-theorem Inv_new (im : Impl) (cmp : Cmp) (inT outT : Ty) (st : Option Nat) : Inv im (Builder.new cmp inT outT st) := by
-  refine ⟨⟨?_, ?_, ?_, ?_⟩, rfl, ?_⟩
-  · intro n hn; simp [Builder.new] at hn
-  · intro s pe hpe; simp [Builder.new, getSlice] at hpe
-  · intro s pe hpe; simp [Builder.new, getSlice] at hpe
-  · intro s e hc
-    rcases hc with hc | hc
-    · rcases hc with hc | ⟨br, hbr, _⟩
-      · simp [Builder.new] at hc
-      · simp [Builder.new] at hbr
-    · simp at hc
-  · intro p hp; simp [Builder.new] at hp
-
-theorem KeysOK_new (cmp : Cmp) (inT outT : Ty) (st : Option Nat) : KeysOK (Builder.new cmp inT outT st) :=
-  ⟨by simp [Builder.new], by intro n hn; simp [Builder.new] at hn⟩
 
 end EinoV.Build
